@@ -87,6 +87,19 @@ def closed(t=None):
     add("same ct matrix [0,1] - [1,0]", ctm[0, 1] - ctm[1, 0])
     add("same ct matrix [i,j] [j,i]", ctm[k, l] * ctm[l, k])
     add("same ct fixed and free", ctv[0] * ctv[k] * u[k])
+    # a closed inner sum over an index that an enclosing scope binds too, with the enclosing index read AFTER the inner sum was
+    # visited (operand order), and before it: a binder must restore the enclosing binding after every pass of its loop
+    n_ = v[i] * v[i]
+    MI = MultiIndex
+    add("shadow: sum_i n*u_i, n = sum_i v_i v_i", C.IndexSum(C.Product(n_, u[i]), MI((i,))))
+    add("shadow: sum_i sqrt(1+n)*u_i", C.IndexSum(C.Product(sqrt(1 + n_), u[i]), MI((i,))))
+    add("shadow: sum_i u_i/(1+n) (outer read first)", C.IndexSum(C.Division(u[i], 1 + n_), MI((i,))))
+    add("shadow: sum_i (u_i/(1+n))*(u_i/(1+n))", (u[i] / (1 + n_)) * (u[i] / (1 + n_)))
+    add("shadow: sum_i cond(n<f, u_i, v_i)", C.IndexSum(conditional(lt(n_, f), u[i], v[i]), MI((i,))))
+    add("shadow: ct(cond(n<f, u_i, v_i),(i))[k] v_k", C.Indexed(C.ComponentTensor(conditional(lt(n_, f), u[i], v[i]), MI((i,))), MI((k,))) * v[k])
+    add("shadow: ct(cond(n<f, u_i, v_i),(i))[1]", C.Indexed(C.ComponentTensor(conditional(lt(n_, f), u[i], v[i]), MI((i,))), MI((FixedIndex(1),))))
+    add("shadow: ct(n*u_i,(i))[0]", C.Indexed(C.ComponentTensor(C.Product(n_, u[i]), MI((i,))), MI((FixedIndex(0),))))
+    add("shadow: sum_ij (A_ij/(1+tr))*(A_ij/(1+tr)), tr = A_ii", (A[i, j] / (1 + A[i, i])) * (A[i, j] / (1 + A[i, i])))
     return [x for x in out if x is not None and x[1] is not None]
 
 
